@@ -56,7 +56,8 @@ def gen(rng):
     wm = world.gen_world_model(rng, structured=structured, use_cache=rng.choice([True, None, False]), nfiles=rng.randrange(1, 4),
                                sizes=rng.choice([["tiny", "tiny", "k8"]] * 4 + [["tiny", "k8"], ["tiny", "k64", "k160"], ["tiny", "k160", "k256"]]),
                                p_have=0.3, max_stmts=4, min_missing=1, shapes=shapes,
-                               lock=rng.choice(["absent", "ahead"]), big_p=0.006)
+                               lock=rng.choice(["absent", "ahead"]), big_p=0.006,
+                               many_files=rng.choice([40, 70]) if rng.random() < 0.015 else None)
     tags = set()
     # directives in front of some statements
     for p, segs in wm["files"].items():
@@ -71,6 +72,8 @@ def gen(rng):
                 i += 1
             i += 1
     knobs = {"threads": rng.randrange(1, 5), "config_arg": rng.choice(["rel", "abs"])}
+    if len(wm["files"]) > 30:
+        knobs["nofile"] = 16      # descriptors are a bounded resource (scen.env_knobs)
     seed = rng.getrandbits(40) | 1
     return wm, knobs, seed, tags
 
